@@ -887,7 +887,7 @@ fn tx() -> impl Strategy<Value = Tx> {
     let burst = (prop_oneof![2 => Just(u8::MAX), 1 => Just(AT_CANCEL), 2 => 0u8..6], prop::collection::vec(hcall, 1..=3)).prop_map(|(at, calls)| Burst { at, calls });
     let helpers = prop_oneof![
         2 => Just(Vec::new()),
-        3 => prop::collection::vec(burst, 1..=3).prop_map(|_| Vec::new()),
+        3 => prop::collection::vec(burst, 1..=3),
     ];
     (0u8..4, prop::collection::vec(step, 0..6), end, prop::option::weighted(0.3, cancel), helpers).prop_map(|(pre_yields, steps, end, cancel, helpers)| Tx {
         pre_yields,
